@@ -142,6 +142,9 @@ pub fn install_panic_hook() {
             };
             let short: String = msg.split(':').next().unwrap_or("").chars().take(60).collect();
             LAST_PANIC.with(|p| *p.borrow_mut() = format!("{file}: {short}"));
+            if std::env::var_os("VERIF_BT").is_some() {
+                eprintln!("panic: {info}\n{}", std::backtrace::Backtrace::force_capture());
+            }
         }
     }));
 }
